@@ -130,6 +130,7 @@ type wrun struct {
 	fatal    string
 	// features of the scenario (class label)
 	torn, kfWindow, quitQueue, enqAfterTorn, quitInFlush, quitSem bool
+	preCancelled, cancelInWrite                                   bool
 	tickSinceTorn                                                 bool
 }
 
@@ -161,11 +162,18 @@ func (ru *wrun) finish() {
 	}
 }
 
-func (ru *wrun) start(id int) bool {
+func (ru *wrun) start(id int, preCancel bool) bool {
 	if id < 1 || id > len(ru.conf.lens) || ru.callers[id] != nil {
 		return false
 	}
 	ctx, cancel := context.WithCancel(context.Background())
+	if preCancel {
+		// the caller's context has ENDED when it reaches writeContext's first select (in Conn.exec: between the
+		// up-front ctx.Err() check and the select). With the semaphore free / the flusher at its select Go's select
+		// may take either ready case; both continuations are behaviours of the machine (submit; cancel | enter/enqueue).
+		cancel()
+		ru.preCancelled = true
+	}
 	r := &wcaller{id: id, gidReady: make(chan struct{}), ctx: ctx, cancel: cancel, done: make(chan struct{})}
 	ru.callers[id] = r
 	ru.order = append(ru.order, r)
@@ -244,13 +252,20 @@ func (ru *wrun) exec(tok string) bool {
 		ru.g.Close()
 		ru.trace = append(ru.trace, "X")
 	case tok[0] == 's':
-		if !ru.start(num(tok[1:])) {
+		if !ru.start(num(tok[1:]), false) {
+			return false
+		}
+	case tok[0] == 'S':
+		if !ru.start(num(tok[1:]), true) {
 			return false
 		}
 	case tok[0] == 'c':
 		r := ru.callers[num(tok[1:])]
 		if r == nil {
 			return false
+		}
+		if r.state != "D" && (r.entered || r.state == "G") {
+			ru.cancelInWrite = true
 		}
 		r.cancel()
 	case tok[0] == 'p':
@@ -461,7 +476,8 @@ func (ru *wrun) class() string {
 		on bool
 		s  string
 	}{{ru.torn, "torn"}, {ru.kfWindow, "KF-C07-1-window"}, {ru.quitQueue, "quit-with-queue"}, {ru.enqAfterTorn, "queued-between-torn-and-quit"},
-		{ru.quitInFlush, "quit-inside-write"}, {ru.quitSem, "quit-with-semaphore-waiters"}} {
+		{ru.quitInFlush, "quit-inside-write"}, {ru.quitSem, "quit-with-semaphore-waiters"},
+		{ru.preCancelled, "ctx-ended-before-select"}, {ru.cancelInWrite, "cancel-inside-write"}} {
 		if f.on {
 			cls += "/" + f.s
 		}
@@ -538,6 +554,13 @@ func (ru *wrun) serve() {
 	}
 }
 
+// flushIfQueued fires the flush timer when the coalescer has requests enqueued and no Write inside the transport.
+func (ru *wrun) flushIfQueued(step func(string)) {
+	if ru.conf.coal && ru.fatal == "" && !ru.goneSeen && ru.queued() > 0 && len(ru.g.heldSnapshot()) == 0 {
+		step("t")
+	}
+}
+
 // wind up: quit (if not yet), whatever then enters the transport is served whole (a healthy socket), socket closed.
 func (ru *wrun) windUp() {
 	if !ru.qseen {
@@ -608,6 +631,62 @@ func wTemplate(conf wconf, kind, cut, mid int, ek string) wcase {
 		if cut > 0 && !conf.coal {
 			step(fmt.Sprintf("p1:%d", cut))
 		}
+	case 3:
+		// `mid` callers write their whole frames one after the other; then caller mid+1 arrives with its context ALREADY
+		// ENDED while the semaphore is free / the flusher is at its select (either select case may win: it returns
+		// (0, ctx error) without a byte, or it writes like anybody else); the remaining callers follow while whatever
+		// Write is then inside the transport is held after `cut` bytes; everything is served (newest Write first).
+		for i := 1; i <= mid; i++ {
+			step(fmt.Sprintf("s%d", i))
+			ru.flushIfQueued(step)
+			ru.serve()
+		}
+		step(fmt.Sprintf("S%d", mid+1))
+		for i := mid + 2; i <= 3; i++ {
+			step(fmt.Sprintf("s%d", i))
+			ru.flushIfQueued(step)
+			if held := ru.g.heldSnapshot(); len(held) > 0 {
+				w := held[0]
+				for _, h := range held {
+					if h.idx < w.idx {
+						w = h
+					}
+				}
+				if k := imin(cut, len(w.p)-1) - w.off; k > 0 && ru.wreq[w] != 0 {
+					step(fmt.Sprintf("p%d:%d", ru.wreq[w], k))
+				}
+			}
+		}
+		ru.flushIfQueued(step)
+		ru.serve()
+		ru.flushIfQueued(step)
+		ru.serve()
+	case 4:
+		// caller 1's Write is inside the transport after `cut` bytes; callers 2.. arrive: `mid` of them with their context
+		// already ended (only ctx.Done is ready: they leave at once), the others normally; then EVERY context is cancelled -
+		// of the caller inside the Write (ignored from now on), of those waiting for the semaphore / enqueued behind it;
+		// the Write ends with `ek`.
+		step("s1")
+		ru.flushIfQueued(step)
+		if cut > 0 {
+			step(fmt.Sprintf("p1:%d", cut))
+		}
+		for i := 2; i <= 3; i++ {
+			if i-2 < mid {
+				step(fmt.Sprintf("S%d", i))
+			} else {
+				step(fmt.Sprintf("s%d", i))
+			}
+		}
+		for i := 1; i <= 3; i++ {
+			step(fmt.Sprintf("c%d", i))
+		}
+		if ek == "ok" {
+			step(fmt.Sprintf("p1:%d", conf.lens[0]-cut))
+		}
+		step("e1:" + ek)
+		ru.flushIfQueued(step)
+		ru.serve()
 	}
 	if ru.fatal == "" {
 		ru.windUp()
@@ -683,7 +762,9 @@ func runWSched(r *vh.Rng, conf wconf) wcase {
 			cs = append(cs, cand{fmt.Sprintf("s%d", next), 4})
 		}
 		for _, q := range ru.order {
-			if q.state == "S" || q.state == "E" || (q.state == "R" && !q.entered) {
+			// every cancellation point: parked in the first select, enqueued, in a batch behind the buffer being
+			// written, and while its own frame is inside the transport Write (from then on the context is ignored)
+			if q.state == "S" || q.state == "E" || q.state == "R" || q.state == "G" {
 				cs = append(cs, cand{fmt.Sprintf("c%d", q.id), 1})
 			}
 		}
